@@ -828,6 +828,55 @@ def check_group_stats(ctx: Ctx, geom, ml, jax, jnp, n_cases: int):
             ctx.violation("correspondence", "GroupNorm on scalars differs from (x - mean_group)/sqrt(var_group + eps) of the Lean model", case)
 
 
+def check_group_independence(ctx: Ctx, geom, ml, jnp, n_cases: int):
+    """channel groups of one sample do not talk to each other: the output of a group of channels of
+    ml.GroupNorm(groups=G) equals the layer with one group applied to those channels alone, and does not
+    change when the channels of the other groups are replaced (vector and scalar blocks)"""
+    import equiv
+
+    rng = ctx.rng
+    for it in range(n_cases):
+        d = int(rng.choice([2, 3]))
+        k = int(rng.choice([1, 1, 0]))
+        p = int(rng.integers(0, 2))
+        G = int(rng.choice([2, 3]))
+        cpg = int(rng.integers(1, 3))
+        c = G * cpg
+        spatial = [int(v) for v in rng.permutation([3, 4, 5])[:d]]
+        shape = (c,) + tuple(spatial) + (d,) * k
+        x = rng.normal(size=shape).astype(np.float32)
+        x += rng.normal(size=(c,) + (1,) * d + (d,) * k).astype(np.float32) * 3  # groups with different means
+        sig = equiv.signature([((k, p), c)])
+        sig1 = equiv.signature([((k, p), cpg)])
+        full = ml.GroupNorm(sig, d, G)
+        one = ml.GroupNorm(sig1, d, 1)
+        case = {"part": "channel-group independence of GroupNorm", "D": d, "type": [k, p], "groups": G,
+                "channels": c, "spatial": spatial}
+        ctx.case(("group_indep", d, k, p, G, c, tuple(spatial), it), True,
+                 sample=case if it == 0 else None)
+        ctx.hist("group_independence", f"k={k},G={G}")
+        try:
+            out = np.asarray(full(geom.MultiImage({(k, p): jnp.asarray(x)}, d))[(k, p)])
+            g0 = int(rng.integers(G))
+            sl = slice(g0 * cpg, (g0 + 1) * cpg)
+            alone = np.asarray(one(geom.MultiImage({(k, p): jnp.asarray(x[sl])}, d))[(k, p)])
+            x2 = x.copy()
+            mask = np.ones(c, dtype=bool); mask[sl] = False
+            x2[mask] = rng.normal(size=x2[mask].shape).astype(np.float32) * 10 + 5
+            out2 = np.asarray(full(geom.MultiImage({(k, p): jnp.asarray(x2)}, d))[(k, p)])
+        except Exception as e:
+            case["raised"] = repr(e)[:300]
+            ctx.violation("oracle", "GroupNorm raised on a valid block", case)
+            continue
+        scale = max(1.0, float(np.max(np.abs(alone))))
+        d1 = float(np.max(np.abs(out[sl] - alone))) / scale
+        d2 = float(np.max(np.abs(out[sl] - out2[sl]))) / scale
+        if d1 > 1e-3 or d2 > 1e-3:
+            case["diff_vs_group_alone"] = d1
+            case["diff_when_other_groups_replaced"] = d2
+            ctx.violation("oracle", "channels of other groups influence a channel group of GroupNorm (cross-talk between channels)", case)
+
+
 # --------------------------------------------------------------------------------------------
 # D. layers and models through jax.vmap; E. per-entry losses
 
@@ -1081,6 +1130,7 @@ def run(ctx: Ctx):
     run_methods(ctx, geom, jax, jnp)
     t.append(time.time())
     check_group_stats(ctx, geom, ml, jax, jnp, 8 if quick else 60)
+    check_group_independence(ctx, geom, ml, jnp, 10 if quick else 80)
     check_losses(ctx, geom, ml, jnp)
     t.append(time.time())
     check_models(ctx, geom, ml, models, jax, jnp)
